@@ -16,7 +16,7 @@ PROPERTY = 'C11'
 RULE = ('Exhaustive: every ordered pair and triple of the 13 binary operators in every tree shape over variable leaves; for '
         'pairs additionally every unary (+ - not, also stacked), `is T` (all scalar types and T[]), postfix [i] / .length / '
         'call / array-literal decoration on every operand position, and ?? at the top; Hypothesis: random trees to depth 6 '
-        'over all operators, postfix forms, calls, array literals and literals in every lexical form, and unparenthesised runs of 8-160 operators of one precedence level. Oracles: (i) round '
+        'over all operators, postfix forms, calls, array literals and literals in every lexical form, unparenthesised runs of 8-160 operators of one precedence level, and single paths of 6-45 nested parentheses / index / call / array-literal constructs. Oracles: (i) round '
         'trip tree -> print with minimal parentheses -> hidc parse -> same tree (both through the expression rule and '
         'inside a whole program); (ii) the independent precedence-climbing parser ref/expr.py yields the same tree from the '
         'same text; (iii) printing with full parentheses gives the same tree, and omitting any one necessary pair gives a '
@@ -300,8 +300,32 @@ def long_run(draw):
     return e
 
 
+@st.composite
+def deep_nest(draw):
+    """One path of 6..45 nested bracketing constructs: right operands in parentheses (needed: a - (b - c)), index
+    expressions, call arguments, array-literal elements, with unary operators sprinkled in."""
+    depth = draw(st.sampled_from([6, 9, 10, 11, 12, 15, 20, 30, 45]))
+    e = Var('z')
+    for k in range(depth):
+        c = draw(st.integers(0, 5))
+        v = Var('abcd'[draw(st.integers(0, 3))])
+        if c == 0:
+            e = Bin(draw(st.sampled_from(['-', '/', '%'])), v, e if isinstance(e, Bin) else Bin('+', e, Lit('int', k % 10, None)))
+        elif c == 1:
+            e = Index(Var('t'), e)
+        elif c == 2:
+            e = Call('f', [e])
+        elif c == 3:
+            e = Index(ArrLit([e, Lit('int', 1, None)]), Lit('int', 0, None))
+        elif c == 4:
+            e = Bin('*', Bin('+', e, v), v)           # Horner step: (e + v) * v
+        else:
+            e = Un(draw(st.sampled_from(['-', 'not', '+'])), e)
+    return e
+
+
 def shards(tier):
-    return [('enum', k, 12) for k in range(12)] + [('rand', k, 4) for k in range(4)] + [('runs', 0, 1)]
+    return [('enum', k, 12) for k in range(12)] + [('rand', k, 4) for k in range(4)] + [('runs', 0, 1), ('nest', 0, 1)]
 
 
 def run_shard(desc, seed, tier):
@@ -330,6 +354,13 @@ def run_shard(desc, seed, tier):
             stats.sample({'kind': 'random', 'text': join(expr_tokens(t, 'min'))[:400]})
         return check_tree(stats, t)
 
+    if kind == 'nest':
+        def chk_nest(t):
+            stats.cls('deep_nests')
+            return chk(t)
+        search(deep_nest(), chk_nest, seed=derive_seed(seed, 'C11', 'nest'), max_examples=250 if tier == 'quick' else 3000,
+               stats=stats, to_case=lambda v, m: {'kind': 'tree', 'tree': hast.to_json(v), 'message': m[:3000], 'text': join(expr_tokens(v, 'min'))})
+        return stats
     if kind == 'runs':
         def chk_run(t):
             stats.cls('long_runs')
